@@ -32,30 +32,38 @@ structure Cfg where
   tipDispatch : Dispatch
   c1k : Nat                  -- `C1K`
   sparseBelow : Nat          -- `Marshal`: sparse encoding iff `n < 64`
+  l128 : Nat                 -- `L128` (dense form length; `Unmarshal` thresholds)
 deriving DecidableEq, Repr
 
 def Proved (c : Cfg) : Prop :=
   Nv.C08.Proved c.base ∧ c.offset = .i64mul ∧ c.roffset = .i64mul ∧ c.tipDispatch = .straight ∧ c.c1k = 1024 ∧
-  c.sparseBelow = 64
+  c.sparseBelow = 64 ∧ c.l128 = 128
 instance : DecidablePred Proved := fun c => by unfold Proved; exact inferInstance
+
+/-- every behaviour-selecting fact was recognised by the extractor. When this is false the oracle refuses to predict
+    the affected operations (`unknown-cfg`) instead of defaulting to some behaviour. -/
+def Cfg.offsetsKnown (c : Cfg) : Bool := c.offset != .unknown && c.roffset != .unknown
+def Cfg.dispatchKnown (c : Cfg) : Bool := c.tipDispatch != .unknown
 
 /-- shape facts the hand-written model relies on (regenerated, compared with `expected`) -/
 structure Facts where
   marshal : Shape            -- Bit1024.Marshal body
   unmarshal : Shape          -- Bit1024.Unmarshal body
   bigCtor : List Shape       -- NewBigU32, NewBigU32FromData, NewBigU32FromI64, SetI64, Reverse
-  bigGetN : List Shape       -- BigU32.getNAsI64 + 2 wrappers, BigU32s.getNAsI64 + 2 wrappers, BigU32s.Reverse
+  bigGetN : List Shape       -- BigU32.getNAsI64 + 2 wrappers, BigU32s.getNAsI64 + 2 wrappers, BigU32s.Reverse,
+                             -- BigU32.IterAsI64, RIterAsI64 (whole body: one call, arguments s, pos, <offset>, n)
   tipCtor : List Shape       -- NewU32BitTip, NewU32BitTipFromData, NewU32BitTipFromU32, SetU32, Reverse
-  tipIter : List Shape       -- U32BitTip.IterAsU32, RIterAsU32, 2 wrappers; U32BitTips.GetNAsU32, RGetNAsU32, Reverse
+  tipIter : List Shape       -- U32BitTip.IterAsU32, RIterAsU32, 2 wrappers; U32BitTips.GetNAsU32, RGetNAsU32, Reverse,
+                             -- U32BitTip.getNAsU32 (whole body, either dispatch order)
 deriving DecidableEq, Repr
 
 def Facts.expected : Facts where
   marshal := .ok
   unmarshal := .ok
   bigCtor := List.replicate 5 .ok
-  bigGetN := List.replicate 7 .ok
+  bigGetN := List.replicate 9 .ok
   tipCtor := List.replicate 5 .ok
-  tipIter := List.replicate 7 .ok
+  tipIter := List.replicate 8 .ok
 
 /-! ## Marshal / Unmarshal -/
 
@@ -189,11 +197,13 @@ def fromData (checkStart : Bool) (start : BitVec 32) (buf : List Byte) : FromDat
     | .err e _ => .err e
     | .panic => .panic
 
-/-- block base added to every member by `BigU32.IterAsI64 / RIterAsI64` -/
+/-- block base added to every member by `BigU32.IterAsI64 / RIterAsI64`. `.unknown` has no behaviour: the oracle
+    never evaluates it (`Cfg.offsetsKnown`), the value below is a placeholder outside every theorem. -/
 def offsetOf (k : Offset) (start : BitVec 32) : BitVec 64 :=
   match k with
   | .i64mul => BitVec.setWidth 64 start * 1024#64
-  | _ => BitVec.setWidth 64 (start * 1024#32)
+  | .u32mul => BitVec.setWidth 64 (start * 1024#32)
+  | .unknown => 0#64
 
 def bigOffset (c : Cfg) (rev : Bool) (start : BitVec 32) : BitVec 64 :=
   offsetOf (if rev then c.roffset else c.offset) start
@@ -212,11 +222,13 @@ def tipIter (c : Cfg) (magic : Int) (rev : Bool) (b : Block) (s : List (BitVec 3
     Option (List (BitVec 32) × Nat) :=
   iter1024 c.base magic rev b.bits s pos (b.start * BitVec.ofNat 32 c.c1k) n
 
-/-- direction actually taken by `U32BitTip.getNAsU32(n, reverse)` -/
+/-- direction actually taken by `U32BitTip.getNAsU32(n, reverse)`; `.unknown` is never evaluated by the oracle
+    (`Cfg.dispatchKnown`) -/
 def tipDir (c : Cfg) (rev : Bool) : Bool :=
   match c.tipDispatch with
   | .straight => rev
-  | _ => !rev
+  | .swapped => !rev
+  | .unknown => rev
 
 /-- `U32BitTip.getNAsU32` -/
 def tipGetN (c : Cfg) (magic : Int) (rev : Bool) (b : Block) (n : Int) : GetN (BitVec 32) :=
